@@ -9,8 +9,31 @@ from .front import AnalysisError, FuncInfo, Program, norm
 from .report import CheckResult
 
 
+def _reader_by_interpretation(res: CheckResult, prog: Program, only=None):
+    """RESTORE-PAIR / READER-FIELDS / FRESH-READ decided by rules_reader.ReaderFlow; False if the interpreter cannot."""
+    from . import rules_reader
+    tmp = CheckResult(res.prop, res.tier)
+    try:
+        rules_reader.reader_rules(tmp, prog)
+    except AnalysisError as e:
+        res.extra['reader_rules_method'] = f'structural rules on the syntax tree (interpretation not possible: {e})'
+        return False
+    res.extra['reader_rules_method'] = 'abstract interpretation of MosReader.from_* / __init__ / properties over symbolic sources'
+    for o in tmp.obligations:
+        if only is None or o.rule in only:
+            res.rules[o.rule] = tmp.rules[o.rule]
+            res.add(o.rule, o.where, o.construct, o.verdict == 'DISCHARGED', o.detail, o.file, o.line)
+    for e in tmp.errors:
+        res.error(e)
+    return True
+
+
 def fresh_read(res: CheckResult, prog: Program):
     """FRESH-READ / NO-MEMO: MosReader.mos_object re-creates the message on every access and stores nothing."""
+    if any(o.rule == 'FRESH-READ' and o.construct == 'mos_object restores on every access' for o in res.obligations):
+        return
+    if _reader_by_interpretation(res, prog, only=('FRESH-READ',)):
+        return
     res.rules['FRESH-READ'] = 'MosReader.mos_object calls the restore function on every access and stores nothing on self'
     fi = prog.func('MosReader.mos_object')
     stores = [n for n in ast.walk(fi.node) if isinstance(n, (ast.Assign, ast.AugAssign, ast.AnnAssign))
@@ -143,9 +166,38 @@ def _ctor_shape(fi: FuncInfo):
     return ast.unparse(mod)
 
 
-def ctor_siblings(res: CheckResult, prog: Program):
-    res.rules['CTOR-SIBLINGS'] = 'MosFile.from_file and from_string have the same shape (parse in try, ParseError -> MosInvalidXML, same dispatch); from_s3 delegates to from_string'
+def ctor_siblings(res: CheckResult, prog: Program, classify=None):
+    """With the interpreted classification results at hand the rule is semantic: the three constructors differ only in
+    the parse primitive (ElementTree.parse(<path>) / ElementTree.fromstring(<contents>), default parser) and agree on
+    everything observable afterwards (elements consulted, classes returned, library exceptions raised)."""
     f1, f2, f3 = prog.func('MosFile.from_file'), prog.func('MosFile.from_string'), prog.func('MosFile.from_s3')
+    by = {r['name']: r for r in (classify or []) if r.get('ok', True)}
+    if len(by) == 3 and all(by[n].get('parses') for n in by):
+        res.rules['CTOR-SIBLINGS'] = ('MosFile.from_file / from_string / from_s3, interpreted, differ only in the parse primitive (ElementTree.parse(path) vs '
+                                      'ElementTree.fromstring(contents), default parser, argument passed unchanged) and agree on the elements consulted afterwards')
+        res.extra['ctor_siblings_method'] = 'interpreted classification (parse primitives and consulted elements)'
+        want = {'from_file': ('parse', 'argument.'), 'from_string': ('fromstring', 'argument.'), 'from_s3': ('fromstring', 'read')}
+        details = []
+        for n, (prim, argmark) in want.items():
+            ps = [tuple(x) for v in by[n]['parses'].values() for x in v]
+            for name, args, kw in ps:
+                if name != prim:
+                    details.append(f'MosFile.{n} parses with ElementTree.{name}, expected ElementTree.{prim}')
+                if kw:
+                    details.append(f'MosFile.{n} passes {list(kw)} to the parser: the document is not read the default way')
+                if len(args) != 1 or argmark not in str(args[0]) or (n != 'from_s3' and not str(args[0]).startswith('argument.')):
+                    details.append(f'MosFile.{n} parses {list(args)}: not its own argument unchanged')
+            if not ps:
+                details.append(f'MosFile.{n} never reaches a parse primitive')
+        ok = not details
+        res.add('CTOR-SIBLINGS', 'MosFile.from_file/from_string', 'bodies equal modulo the parse call', ok, '' if ok else details[0], f1.file, f1.node.lineno)
+        reads = {n: sorted({tuple(x) for v in by[n].get('reads', {}).values() for x in v}) for n in by}
+        same = len({repr(v) for v in reads.values()}) == 1
+        s3_ok = same and not [d for d in details if 'from_s3' in d]
+        res.add('CTOR-SIBLINGS', f3.short, 'returns cls.from_string(<downloaded contents>)', s3_ok,
+                '' if s3_ok else ('the three constructors consult different elements after parsing' if not same else [d for d in details if 'from_s3' in d][0]), f3.file, f3.node.lineno)
+        return
+    res.rules['CTOR-SIBLINGS'] = 'MosFile.from_file and from_string have the same shape (parse in try, ParseError -> MosInvalidXML, same dispatch); from_s3 delegates to from_string'
     a, b = _ctor_shape(f1), _ctor_shape(f2)
     res.add('CTOR-SIBLINGS', 'MosFile.from_file/from_string', 'bodies equal modulo the parse call', a == b,
             '' if a == b else 'the file and string constructors differ beyond the parse call', f1.file, f1.node.lineno)
@@ -175,12 +227,19 @@ def marker_writers(res: CheckResult, prog: Program, marker: str):
     res.rules['MARKER-WRITER'] = 'only RunningOrderEnd.merge creates the completion marker element'
     n = 0
     for fi in prog.all_functions():
+        reads = set()
+        for c in ast.walk(fi.node):
+            # a use as the argument of a search method or as an operand of a comparison only *reads* the marker
+            if isinstance(c, ast.Call) and isinstance(c.func, ast.Attribute) and c.func.attr in ('find', 'findall', 'iterfind', 'findtext', 'iter'):
+                reads.update(id(a) for a in list(c.args) + [k.value for k in c.keywords])
+            if isinstance(c, ast.Compare):
+                reads.update(id(a) for a in [c.left] + list(c.comparators))
         for c in ast.walk(fi.node):
             if isinstance(c, ast.Constant) and c.value == marker:
                 n += 1
-                par_ok = fi.short in ('RunningOrderEnd.merge', 'RunningOrder.__add__', 'RunningOrder.completed')
+                par_ok = id(c) in reads or fi.short == 'RunningOrderEnd.merge'
                 res.add('MARKER-WRITER', fi.short, f'use of the literal {marker!r}', par_ok,
-                        '' if par_ok else f'{fi.short} mentions the completion marker: only RunningOrderEnd.merge may write it and __add__/completed read it',
+                        '' if par_ok else f'{fi.short} uses the completion marker other than to look it up: only RunningOrderEnd.merge may write it',
                         fi.file, c.lineno)
     writer = prog.func('RunningOrderEnd.merge')
     has_writer = any(isinstance(c, ast.Constant) and c.value == marker for c in ast.walk(writer.node))
@@ -233,9 +292,23 @@ def serializer(res: CheckResult, prog: Program):
     for name in ('MosFile.__str__', 'MosElement.__str__'):
         fi = prog.func(name)
         rets = [r for r in ast.walk(fi.node) if isinstance(r, ast.Return) and r.value is not None]
-        ok = len(rets) == 1 and isinstance(rets[0].value, ast.Call) and attr_chain(rets[0].value.func) == 'ElementTree.tostring' \
-            and len(rets[0].value.args) == 1 and attr_chain(rets[0].value.args[0]) == 'self.xml' \
-            and any(k.arg == 'encoding' and isinstance(k.value, ast.Constant) and k.value.value == 'unicode' for k in rets[0].value.keywords)
+        # single-assignment locals are read through (root = self.xml; text = tostring(root, ...); return text)
+        assigns = {}
+        for a in ast.walk(fi.node):
+            if isinstance(a, ast.Assign) and len(a.targets) == 1 and isinstance(a.targets[0], ast.Name):
+                assigns.setdefault(a.targets[0].id, []).append(a.value)
+
+        def thru(x, hops=0):
+            while isinstance(x, ast.Name) and len(assigns.get(x.id, [])) == 1 and hops < 4:
+                x, hops = assigns[x.id][0], hops + 1
+            return x
+        ret = thru(rets[0].value) if len(rets) == 1 else None
+        ok = isinstance(ret, ast.Call) and attr_chain(ret.func) == 'ElementTree.tostring' \
+            and len(ret.args) in (1, 2) and attr_chain(thru(ret.args[0])) == 'self.xml'
+        if ok:
+            call = ret
+            enc = call.args[1] if len(call.args) == 2 else next((k.value for k in call.keywords if k.arg == 'encoding'), None)
+            ok = isinstance(enc, ast.Constant) and enc.value == 'unicode' and all(k.arg == 'encoding' for k in call.keywords)
         res.add('SERIALIZER', fi.short, "return ElementTree.tostring(self.xml, encoding='unicode')", ok,
                 '' if ok else 'the string form is not the plain ElementTree serialisation of self.xml', fi.file, fi.node.lineno)
         n += 1
@@ -356,7 +429,7 @@ def lt_numeric(res: CheckResult, prog: Program):
     res.rules['ID-IS-INT'] = 'MosFile.message_id passes through int(); MosReader stores and returns that value unchanged'
     for cname in ('MosReader', 'MosFile'):
         ci = prog.cls(cname)
-        fi = ci.methods.get('__lt__')
+        fi = ci.find('__lt__')          # the class's own definition or one inherited from a base / mixin
         if fi is None:
             res.error(f'anchor vanished: {cname}.__lt__')
             continue
@@ -369,7 +442,7 @@ def lt_numeric(res: CheckResult, prog: Program):
             ids = {f'self.message_id', f'self._message_id'}
             oids = {f'{other}.message_id', f'{other}._message_id'}
             ok = (isinstance(c.ops[0], ast.Lt) and l in ids and r in oids) or (isinstance(c.ops[0], ast.Gt) and l in oids and r in ids)
-        res.add('LT-NUMERIC', fi.short, 'return self.message_id < other.message_id', ok,
+        res.add('LT-NUMERIC', f'{cname}.__lt__', 'return self.message_id < other.message_id', ok,
                 '' if ok else f'__lt__ is {norm(rets[0].value) if rets else "?"}', fi.file, fi.node.lineno)
         dec = 'total_ordering' in ci.decorators or 'functools.total_ordering' in ci.decorators
         res.add('LT-NUMERIC', cname, '@total_ordering', dec, '' if dec else f'{cname} lost @total_ordering', fi.file, ci.node.lineno)
@@ -426,6 +499,8 @@ def order_preserved(res: CheckResult, prog: Program):
 
 # ------------------------------------------------------------------- C18
 def restore_pair(res: CheckResult, prog: Program):
+    if _reader_by_interpretation(res, prog):
+        return
     res.rules['RESTORE-PAIR'] = 'MosReader.from_X restores with mo.__class__.from_X for the same X and exactly the arguments given to MosFile.from_X, in order'
     res.rules['READER-FIELDS'] = 'the reader records mo.message_id / mo.ro_id / mo.__class__ and each public property returns the matching field'
     for x in ('from_file', 'from_string', 'from_s3'):
